@@ -528,6 +528,11 @@ func GenHistory(t *rapid.T, hp *HistoryParams) Case {
 		case 0: // a pod's life
 			c.Ops = append(c.Ops, ab("create"), ab("sched"), Op{K: "phase", A: rapid.IntRange(0, 7).Draw(t, "pa"), B: 0})
 		case 1: // retire a pod and handle its events
+			if rapid.IntRange(0, 2).Draw(t, "deletedWhileBinding") == 0 {
+				// ... a pod that is deleted between its filter and its bind (the bind request is already on its way)
+				victim := rapid.IntRange(0, 7).Draw(t, "victim1")
+				c.Ops = append(c.Ops, ab("create"), Op{K: "synclister", A: 2}, Op{K: "filter", A: victim, B: 63}, Op{K: "delete", A: victim}, ab("bindgone"))
+			}
 			c.Ops = append(c.Ops, ab("delete"), Op{K: "deliver"}, Op{K: "deliver"}, ab("unbind"), ab("unbind"))
 		case 2: // a pod finishes
 			c.Ops = append(c.Ops, Op{K: "phase", A: rapid.IntRange(0, 7).Draw(t, "pa"), B: rapid.IntRange(1, 2).Draw(t, "fin")},
